@@ -246,7 +246,7 @@ func straddleCase(c *Config) (cfg, []op) {
 // scaleSpec describes one large case: a large analysis, then (init v) and a short one, possibly
 // a third.
 type scaleSpec struct {
-	shape string // asc | walk | desc | period | branches | chain
+	shape string // asc | walk | desc | onetick | period | branches | chain
 	cf    cfg
 	n     int // commits of the large analysis (asc: = distinct ticks); branches: number of branches; chain: depth
 	k     int // branches: commits per branch; period: the period
@@ -289,6 +289,18 @@ func scalePhase(c *Config, b *builder, s scaleSpec, dsec, base int64, hoff int) 
 		for i := 0; i < s.n; i++ {
 			b.consume(c, 0, h(i), base-int64(i)*(dsec/7+1), 0, par(i))
 		}
+	case "onetick":
+		// non-decreasing times inside ONE period: one registry entry holds all n commits.  A merge commit
+		// is consumed on branch 0 right after the first commit and replayed on branch 1 at the very end,
+		// when it sits n entries deep in commits[0]: times are monotone, so it must stay listed exactly once
+		b.consume(c, 0, h(0), base, 0, 0)
+		b.fork(0, 1)
+		b.consume(c, 0, h(1), base+1, 0, 2)
+		for i := 2; i < s.n; i++ {
+			b.consume(c, 0, h(i), base+1+int64(i)*(dsec-2)/int64(s.n), 0, 1)
+		}
+		b.consume(c, 1, h(1), base+1, 0, 2)
+		b.ops = append(b.ops, op{kind: "merge", bs: []int{0, 1}})
 	case "period":
 		// the period number is periodic with period k inside blocks (a permutation of the block)
 		p := int64(s.k)
@@ -375,7 +387,7 @@ func scaleSpecs(c *Config) []scaleSpec {
 		// distinct ticks around 2^10, every way of initialising again
 		{shape: "asc", cf: h24, n: 1000, v: 1, again: "short"},
 		{shape: "asc", cf: h24, n: 1023, v: 0, again: "short"},
-		{shape: "asc", cf: h24, n: 1024, v: 1, again: "short"},
+		{shape: "asc", cf: h24, n: 1024, v: 3, again: "short"},
 		{shape: "asc", cf: h24, n: 1025, v: 0, again: "short"},
 		{shape: "asc", cf: h24, n: 1025, v: 1, again: "short"},
 		{shape: "asc", cf: h1, n: 1025, v: 2, again: "short"},
@@ -390,8 +402,11 @@ func scaleSpecs(c *Config) []scaleSpec {
 		// one registry entry with 2^10 +- commits
 		{shape: "desc", cf: h24, n: 1025, v: 1, again: "short"},
 		{shape: "desc", cf: h1, n: 2000, v: 0, again: "same"},
+		{shape: "onetick", cf: h24, n: 1023, v: 3, again: "short"},
+		{shape: "onetick", cf: h24, n: 1100, v: 1, again: "short"},
+		{shape: "onetick", cf: h7d, n: 2100, v: 2, again: "same"},
 		// periodic period numbers, periods 2^k and 2^k +- 1
-		{shape: "period", cf: h24, n: 3000, k: 63, v: 1, again: "short"},
+		{shape: "period", cf: h24, n: 3000, k: 63, v: 3, again: "short"},
 		{shape: "period", cf: h24, n: 3000, k: 64, v: 2, again: "short"},
 		{shape: "period", cf: h1, n: 3000, k: 65, v: 0, again: "short"},
 		{shape: "period", cf: h24, n: 3100, k: 1023, v: 1, again: "short"},
@@ -414,6 +429,7 @@ func scaleSpecs(c *Config) []scaleSpec {
 			scaleSpec{shape: "walk", cf: cfg{kind: "hours", v: 2}, n: 100000, v: 2, again: "short"},
 			scaleSpec{shape: "walk", cf: h1, n: 100000, v: 1, again: "same"},
 			scaleSpec{shape: "desc", cf: h24, n: 10000, v: 2, again: "short"},
+			scaleSpec{shape: "onetick", cf: h30d, n: 10000, v: 3, again: "short"},
 			scaleSpec{shape: "period", cf: h1, n: 100000, k: 4097, v: 1, again: "short"},
 			scaleSpec{shape: "period", cf: h1, n: 100000, k: 65535, v: 0, again: "short"},
 			scaleSpec{shape: "branches", cf: h1, n: 10000, k: 3, v: 1, again: "short"},
